@@ -93,11 +93,38 @@ func runC11(c *Ctx) {
 					if inRegion(in, normB) {
 						nClose = in
 					}
+				default:
+					// a helper of the listener that closes the listening socket counts as the close
+					if cal := ci.Common().StaticCallee(); cal != nil && cal.Pkg == fn.Pkg && len(cal.Blocks) > 0 && closesRawListener(cal, 0) {
+						if inRegion(in, upB) {
+							upClose = in
+						}
+						if inRegion(in, normB) {
+							nClose = in
+						}
+					}
 				}
 			})
 			c.Check("C11.O1", fk+":upgrade-stop-before-drain", fn.Pos(), upStop != nil && upCb != nil && instrDominates(upStop, upCb), "upgrade: stopAccept precedes the drain callback", "on hot upgrade the drain callback is not preceded by stopAccept: the old process would keep accepting connections it is about to drop")
 			c.Check("C11.O1", fk+":upgrade-keeps-socket", fn.Pos(), upClose == nil, "upgrade: the listening socket is not closed by the old process", "on hot upgrade the old process closes the listening socket the new process has taken over")
 			c.Check("C11.O1", fk+":stop-close-before-drain", fn.Pos(), nClose != nil && nCb != nil && instrDominates(nClose, nCb), "graceful stop: the listener is closed before connections are drained", "on graceful stop the listener is not closed before draining: new connections arrive while the process is going away")
+			// on graceful stop the drain is not optional: only "does this listener own a port" may decide. In particular it
+			// must not depend on whether this call changed the listener's state - after a hot upgrade the old process's
+			// listeners are already stopped when the final stage shuts them down, and that is exactly when the connections
+			// that stayed with it have to be drained.
+			if nCb != nil {
+				extra := ""
+				for _, g := range guardsAt(nCb.Block()) {
+					if !normB.Dominates(g.If.Block()) {
+						continue // the upgrade/non-upgrade decision itself
+					}
+					if _, f, _, okf := loadedField(g.Cond); okf && f == "bindToPort" {
+						continue
+					}
+					extra = c.pos(nearestPos(g.If))
+				}
+				c.Check("C11.O1", fk+":stop-drain-unconditional", nCb.Pos(), extra == "", "on graceful stop every port-owning listener drains its connections", "on graceful stop the drain callback (OnShutdown) depends on a further condition (at "+extra+"): a listener that was already stopped - the old process after a hot upgrade - is closed without notifying and waiting for the connections that stayed with it, so their requests in flight die with the process")
+			}
 			// the callback runs only when accepting was actually stopped (changed)
 			okChanged := false
 			if upCb != nil {
@@ -709,4 +736,30 @@ func c11ReadBufferOwned(c *Ctx) {
 		written = false
 	}
 	c.Check("C11.O10", funcKey(fn)+":handed-over-bytes-written", fn.Pos(), written, "the bytes received with the connection are written into its read buffer", "newServerConnection no longer writes the bytes handed over with a transferred connection into its read buffer: the part of a request the old process had already read is lost")
+}
+
+
+// closesRawListener: fn (or a function of the package it calls, two levels) closes the listening socket (rawl / packetConn).
+func closesRawListener(fn *ssa.Function, d int) bool {
+	if d > 2 {
+		return false
+	}
+	found := false
+	forEachInstr(fn, false, func(_ *ssa.Function, in ssa.Instruction) {
+		ci, ok := in.(ssa.CallInstruction)
+		if !ok {
+			return
+		}
+		if methodName(ci.Common()) == "Close" {
+			if rv := recvOf(ci.Common()); rv != nil {
+				if _, f, _, okf := loadedField(rv); okf && (f == "rawl" || f == "packetConn") {
+					found = true
+				}
+			}
+		}
+		if cal := ci.Common().StaticCallee(); cal != nil && cal.Pkg == fn.Pkg && len(cal.Blocks) > 0 && closesRawListener(cal, d+1) {
+			found = true
+		}
+	})
+	return found
 }
